@@ -10,8 +10,35 @@ let ctable comp l m =
     List.iter (fun lh -> List.iter (fun mh -> put_res put_c (comp fops (zi i) (zi l) (zi m) (zi lh) (zi mh))) [m - 1; m; m + 1]) [l - 1; l + 1]
   done
 
+(* gen <case>: the SAME requests answered by the terms regenerated from the C++ source on this run (Gen_C17_More.v: Round, Dawson_Integral with its
+   static table as explicit state, Erfi, Inv_Erf) instead of the hand model; the library functions they call are their parameters *)
+let g_pi = Float.pi
+let g_fr = find_root fops
+let g_daw c x = g_Dawson_Integral fops g_pi (g_Sign fops) (g_Sign2 fops) (fun x -> x) g_fr c x
+let g_erfi c x = let (c', d) = g_daw c x in (c', g_Erfi fops g_pi (g_Sign fops) (g_Sign2 fops) (fun _ -> d) g_fr x)
+let g_round x d = g_Round fops g_pi (g_Sign fops) (g_Sign2 fops) (fun x -> x) g_fr x d
+let ghandler r =
+  match word r with
+  | "round" -> let x = num r in let y = num r in let d = zi (integer r) in
+      (match g_round x d with
+       | Ok rx -> (match g_round (-. x) d, g_round rx d, g_round y d with
+                   | Ok a, Ok b, Ok c -> put_f rx; put_f a; put_f b; put_f c
+                   | _ -> put_w "EXIT")
+       | _ -> put_w "EXIT")
+  | "dawson" -> let x = num r in let (c, a) = g_daw (daw_table0 fops) x in put_f a; put_f (snd (g_daw c (-. x)))
+  | "erfi" -> let x = num r in let (c, a) = g_erfi (daw_table0 fops) x in put_f a; put_f (snd (g_erfi c (-. x)))
+  | "spechist" -> let n = integer r in
+      let c = ref (daw_table0 fops) in
+      for _ = 1 to n do
+        let kind = integer r in let x = num r in
+        let (c', a) = if kind = 1 then g_erfi !c x else g_daw !c x in c := c'; put_f a
+      done
+  | "inverf" -> let p = num r in put_res put_f (g_Inv_Erf fops g_pi (g_Sign fops) (g_Sign2 fops) (fun x -> x) g_fr p)
+  | o -> put_w ("MODELERR unknown_gen_op_" ^ o)
+
 let rec handler r =
   match word r with
+  | "gen" -> ghandler r
   (* fe <mode> <case>: the caller's rounding direction; the model's float instance always rounds to nearest (compared for mode 0 only) *)
   | "fe" -> let _ = integer r in handler r
   (* a history of scalar-harmonic requests: boost's Y_lm is a function argument of the model, nothing to compute here *)
